@@ -171,12 +171,15 @@ def run_analysis(case, workers, timeout, chooser, threshold, max_steps=200000, d
                 # worker was ever created) the parent enumerating.  Copying results out of the manager
                 # and post-processing after every worker is dead is overhead the property does not bound.
                 alive = [p.pid for p in w.procs if p.started and not p.task.done and not p.task.killed]
-                if alive or not w.procs:
+                own = s.now - c["search_enter"] - c.get("parent_rtt", 0.0)
+                if alive or not w.procs or own > bound:
                     raise InvariantViolation(
                         "deadline_overrun",
                         "search still running %.3f s after it began (timeout %s, bound %.3f; %s)"
                         % (s.now - c["search_enter"], timeout, bound,
-                           "workers alive: %r" % alive if alive else "sequential enumeration in the parent"))
+                           "workers alive: %r" % alive if alive else
+                           "sequential enumeration in the parent" if not w.procs else
+                           "parent spent %.3f s outside manager round trips" % own))
 
         sim.invariants.append(inv)
     if extra_inv:
